@@ -264,7 +264,11 @@ func rulesC14(p *Prog, r *Report) {
 								continue
 							}
 							if _, isOp := pi.opConst(c2); !isOp {
-								continue
+								// an operator matcher called with a non-constant operator (a combinator handed its
+								// operator) consumes a token on success all the same
+								if cal := c2.Call.StaticCallee(); cal == nil || !opMatcherSet(p)[cal] {
+									continue
+								}
 							}
 							for _, eb := range nonNilEdgeBlocks(c2) {
 								if eb == c.Block() || eb.Dominates(c.Block()) {
